@@ -25,10 +25,10 @@ type c12Case struct {
 
 func c12Dom(thorough bool) []float32 {
 	es := []int{-10, -3, 0, 1, 5, 10, 20}
-	ms := []float64{1, 1.25, 1.999}
+	ms := []float64{1, 1.25, 1.9999} // 1.9999 * 2^e against 1 * 2^(e+1): aspect ratios 1 part in 20000 apart
 	if thorough {
 		es = []int{-20, -10, -5, -3, -1, 0, 1, 2, 3, 5, 10, 20}
-		ms = []float64{1, 1.25, 1.5, 1.999}
+		ms = []float64{1, 1.25, 1.5, 1.999, 1.9999}
 	}
 	var d []float32
 	for _, e := range es {
